@@ -397,6 +397,9 @@ func TestC06(t *testing.T) {
 	}
 	retx := retxCases(p, env.Thorough(), env.Seed+1)
 	cases = append(cases, retx...)
+	df := decryptFailCases(p, env.Seed+1)
+	cases = append(cases, df...)
+	params["decrypt_fails_once_cases"] = len(df)
 	params["retx_replay_cases"] = len(retx)
 	params["arrival_sequences"] = total
 	params["cases"] = len(cases)
